@@ -256,19 +256,37 @@ func r172(c *Ctx, rule string) {
 	activeF, rolloutF := c.field("Service", "active"), c.field("Service", "rollout")
 	disposed := map[*types.Var]bool{}
 	for _, cs := range callsTo(sd, lbd) {
-		f, _, ok := fieldLoad(cs.common().Args[0])
-		if !ok {
-			continue
+		// the balancer disposed: a slot, or every element of a list of slots built just before (each under its conditions)
+		type cand struct {
+			val   ssa.Value
+			conds []condEdge
 		}
-		guardsOK := true
-		for _, ce := range dominatingConds(cs.instr.Block()) {
-			cm, ok := ce.asCmp()
-			if !ok || cm.op != token.NEQ || !isLoadOfField(cm.x, f) || !isNilConst(cm.y) {
-				guardsOK = false
+		var cands []cand
+		recv := resolve(cs.common().Args[0])
+		if src, full := fullRangeElem(recv); full {
+			if els, ok := listContents(src); ok {
+				for _, e := range els {
+					cands = append(cands, cand{e.val, append(append([]condEdge{}, e.conds...), condsOtherThanLoop(dominatingConds(cs.instr.Block()))...)})
+				}
 			}
+		} else {
+			cands = append(cands, cand{recv, dominatingConds(cs.instr.Block())})
 		}
-		if guardsOK {
-			disposed[f] = true
+		for _, cd := range cands {
+			f, _, ok := fieldLoad(cd.val)
+			if !ok {
+				continue
+			}
+			guardsOK := true
+			for _, ce := range cd.conds {
+				cm, ok := ce.asCmp()
+				if !ok || cm.op != token.NEQ || !isLoadOfField(resolve(cm.x), f) || !isNilConst(cm.y) {
+					guardsOK = false
+				}
+			}
+			if guardsOK {
+				disposed[f] = true
+			}
 		}
 	}
 	c.ob(rule, "Service.Dispose/disposes-active", sd.Pos(), disposed[activeF], true, "")
